@@ -2711,16 +2711,17 @@ impl Compiler {
         let value_reg = self.builder.alloc_register()?;
         let key_reg = self.builder.alloc_register()?;
 
-        // Track prior member names for rewriting identifier references
-        let mut prior_members: Vec<JsString> = Vec::new();
+        // Initializers may refer to prior members by their bare names anywhere in the expression
+        // (`C = A | B`, `D = Math.max(A, B)`): the members are bound in a scope of their own
+        // that lasts for the body of the declaration.
+        self.emit_push_scope();
 
         for (member_index, member) in decl.members.iter().enumerate() {
             let member_name = member.id.name.cheap_clone();
             let name_idx = self.builder.add_string(member_name.cheap_clone())?;
 
             if let Some(ref init) = member.initializer {
-                // Compile the initializer expression, rewriting references to prior enum members
-                self.compile_enum_init_expression(init, value_reg, enum_obj, &prior_members)?;
+                self.compile_expression(init, value_reg)?;
             } else if member_index == 0 {
                 self.builder.emit(Op::LoadInt {
                     dst: value_reg,
@@ -2738,14 +2739,18 @@ impl Compiler {
                 });
             }
 
-            // Add this member to prior members for subsequent initializers
-            prior_members.push(member_name.cheap_clone());
-
             // Set forward mapping: EnumName.MemberName = value
             self.builder.emit(Op::SetPropertyConst {
                 obj: enum_obj,
                 key: name_idx,
                 value: value_reg,
+            });
+
+            // Make the member visible to subsequent initializers
+            self.builder.emit(Op::DeclareVar {
+                name: name_idx,
+                init: value_reg,
+                mutable: false,
             });
 
             // Set reverse mapping for numeric values: EnumName[value] = "MemberName".
@@ -2809,6 +2814,8 @@ impl Compiler {
                 }
             }
         }
+
+        self.emit_pop_scope();
 
         self.builder.free_register(key_reg);
         self.builder.free_register(value_reg);
@@ -2972,128 +2979,6 @@ impl Compiler {
             }
             _ => {}
         }
-        Ok(())
-    }
-
-    /// Compile an enum initializer expression, rewriting references to prior enum members
-    /// as property accesses on the enum object.
-    fn compile_enum_init_expression(
-        &mut self,
-        expr: &crate::ast::Expression,
-        dst: super::Register,
-        enum_obj: super::Register,
-        prior_members: &[JsString],
-    ) -> Result<(), JsError> {
-        use crate::ast::Expression;
-
-        match expr {
-            // Check if this is an identifier that matches a prior enum member
-            Expression::Identifier(id) => {
-                if prior_members.iter().any(|m| m.as_str() == id.name.as_str()) {
-                    // This is a reference to a prior member - load from enum object
-                    let name_idx = self.builder.add_string(id.name.cheap_clone())?;
-                    self.builder.emit(Op::GetPropertyConst {
-                        dst,
-                        obj: enum_obj,
-                        key: name_idx,
-                    });
-                    Ok(())
-                } else {
-                    // Not a prior member - compile normally
-                    self.compile_expression(expr, dst)
-                }
-            }
-
-            // For binary expressions, recursively handle operands
-            Expression::Binary(bin) => {
-                let left_reg = self.builder.alloc_register()?;
-                let right_reg = self.builder.alloc_register()?;
-
-                self.compile_enum_init_expression(&bin.left, left_reg, enum_obj, prior_members)?;
-                self.compile_enum_init_expression(&bin.right, right_reg, enum_obj, prior_members)?;
-
-                // Now emit the binary operation
-                self.compile_binary_op(bin.operator, dst, left_reg, right_reg)?;
-
-                self.builder.free_register(right_reg);
-                self.builder.free_register(left_reg);
-                Ok(())
-            }
-
-            // For unary expressions, recursively handle operand
-            Expression::Unary(unary) => {
-                let arg_reg = self.builder.alloc_register()?;
-                self.compile_enum_init_expression(
-                    &unary.argument,
-                    arg_reg,
-                    enum_obj,
-                    prior_members,
-                )?;
-
-                // Emit the unary operation
-                match unary.operator {
-                    crate::ast::UnaryOp::Minus => {
-                        self.builder.emit(Op::Neg { dst, src: arg_reg });
-                    }
-                    crate::ast::UnaryOp::Plus => {
-                        self.builder.emit(Op::Plus { dst, src: arg_reg });
-                    }
-                    crate::ast::UnaryOp::Not => {
-                        self.builder.emit(Op::Not { dst, src: arg_reg });
-                    }
-                    crate::ast::UnaryOp::BitNot => {
-                        self.builder.emit(Op::BitNot { dst, src: arg_reg });
-                    }
-                    _ => {
-                        // Fall back to normal compilation for other unary ops
-                        self.builder.free_register(arg_reg);
-                        return self.compile_expression(expr, dst);
-                    }
-                }
-
-                self.builder.free_register(arg_reg);
-                Ok(())
-            }
-
-            // For parenthesized expressions, handle the inner expression
-            Expression::Parenthesized(expr, _) => {
-                self.compile_enum_init_expression(expr, dst, enum_obj, prior_members)
-            }
-
-            // For other expressions (literals, etc.), compile normally
-            _ => self.compile_expression(expr, dst),
-        }
-    }
-
-    /// Compile a binary operator
-    fn compile_binary_op(
-        &mut self,
-        operator: crate::ast::BinaryOp,
-        dst: super::Register,
-        left: super::Register,
-        right: super::Register,
-    ) -> Result<(), JsError> {
-        use crate::ast::BinaryOp;
-        match operator {
-            BinaryOp::BitOr => self.builder.emit(Op::BitOr { dst, left, right }),
-            BinaryOp::BitAnd => self.builder.emit(Op::BitAnd { dst, left, right }),
-            BinaryOp::BitXor => self.builder.emit(Op::BitXor { dst, left, right }),
-            BinaryOp::Add => self.builder.emit(Op::Add { dst, left, right }),
-            BinaryOp::Sub => self.builder.emit(Op::Sub { dst, left, right }),
-            BinaryOp::Mul => self.builder.emit(Op::Mul { dst, left, right }),
-            BinaryOp::Div => self.builder.emit(Op::Div { dst, left, right }),
-            BinaryOp::Mod => self.builder.emit(Op::Mod { dst, left, right }),
-            BinaryOp::Exp => self.builder.emit(Op::Exp { dst, left, right }),
-            BinaryOp::LShift => self.builder.emit(Op::LShift { dst, left, right }),
-            BinaryOp::RShift => self.builder.emit(Op::RShift { dst, left, right }),
-            BinaryOp::URShift => self.builder.emit(Op::URShift { dst, left, right }),
-            _ => {
-                return Err(JsError::internal_error(format!(
-                    "Unsupported binary operator in enum initializer: {:?}",
-                    operator
-                )));
-            }
-        };
         Ok(())
     }
 
